@@ -112,6 +112,14 @@ Proof.
   match goal with X : opt_eqb _ _ = true |- _ => apply opt_eqb_eq in X end. subst. reflexivity.
 Qed.
 
+Lemma opt_eqb_refl a : opt_eqb a a = true.
+Proof. destruct a; cbn; [apply Z.eqb_refl|reflexivity]. Qed.
+Lemma sim_val_refl x : sim_val x x.
+Proof.
+  destruct x; try reflexivity; cbn [sim_val]; [unfold same_dt|unfold same_tm];
+    rewrite !Z.eqb_refl, opt_eqb_refl; reflexivity.
+Qed.
+
 Section WithLaws.
 Hypothesis L : RuntimeLaws rt.
 
@@ -208,7 +216,7 @@ Lemma round_sim k x w : in_kind rt ev false k x = true -> mar_of rt ev k x = Ok 
 Proof.
   intros Hin Hm.
   destruct k; try (exists x; split; [apply (round_nonfold false _ x w Hin); [discriminate|discriminate|exact Hm]|
-                                     destruct x; reflexivity]).
+                                     apply sim_val_refl]).
   - unfold in_kind in Hin. apply andb_true_iff in Hin as [Hs Hr]. destruct x; try discriminate Hs.
     cbn [range negb orb] in Hr. rewrite andb_true_r in Hr.
     destruct (round_dt_sim d w Hr Hm) as (d' & H1 & H2). exists (VDateTime d'). split; [exact H1|exact H2].
@@ -233,3 +241,377 @@ Lemma enum_value_ok_of_text m :
 Proof. intros H1 H2. unfold enum_value_ok. rewrite H1. cbn [plain andb]. rewrite H2. cbn [res_tok_is]. apply String.eqb_refl. Qed.
 
 End Scalar.
+
+(* ================================================================== B. the bridged runtime *)
+Definition Utf8Total (rt : Runtime) : Prop := forall b, utf8_decode rt b <> Unmodelled.
+
+Section Bridged.
+Variable enc : val -> nat.
+Variable dec : nat -> option val.
+Variable kind_of : nat -> option leafkind.
+Variable rts : nat -> Runtime.
+Variable ev : tok -> res val.
+Variable rt0 : Runtime.
+Variable base : Core.runtime.
+Hypothesis CL : coding_law enc dec.
+
+Notation brt := (bridged enc dec kind_of rts ev rt0 base).
+Notation cdec := (cdec enc dec).
+Notation lv := (lv enc dec kind_of rts ev).
+
+Lemma cdec_enc v : cdec (enc v) = Some v.
+Proof. unfold LeafBridge.cdec. rewrite (CL v), Nat.eqb_refl. reflexivity. Qed.
+Lemma cdec_inv a x : cdec a = Some x -> a = enc x.
+Proof.
+  unfold LeafBridge.cdec. destruct (dec a) as [y|]; [|discriminate].
+  destruct (Nat.eqb (enc y) a) eqn:E; [|discriminate]. intros H. inv H. symmetry. apply Nat.eqb_eq. exact E.
+Qed.
+
+Lemma atom_eqb_eq (v : Core.pv) a : Core.pv_eqb v (Core.PAtom a) = true -> v = Core.PAtom a.
+Proof. destruct v; cbn; intros H; try discriminate. apply Nat.eqb_eq in H. subst. reflexivity. Qed.
+
+(* inversion of a leaf call that returned *)
+Lemma run_leaf_ok f p w : run_leaf enc dec f p = Core.Ok w ->
+  exists a x y, p = Core.PAtom a /\ cdec a = Some x /\ f x = Ok y /\ w = Core.PAtom (enc y).
+Proof.
+  unfold run_leaf. destruct p as [a| | | | |]; try discriminate.
+  destruct (cdec a) as [x|] eqn:Ea; [|discriminate]. unfold lift. destruct (f x) as [y|e|] eqn:Ef; try discriminate.
+  intros H. inv H. exists a, x, y. repeat split; assumption.
+Qed.
+Lemma run_leaf_enc f x : run_leaf enc dec f (Core.PAtom (enc x)) = lift enc (f x).
+Proof. unfold run_leaf. rewrite cdec_enc. reflexivity. Qed.
+
+Lemma on_atom_inv f p : on_atom enc dec f p = true -> exists a x, p = Core.PAtom a /\ cdec a = Some x /\ f x = true.
+Proof.
+  unfold on_atom. destruct p as [a| | | | |]; try discriminate. destruct (cdec a) as [x|] eqn:E; [|discriminate].
+  intros H. exists a, x. repeat split; assumption.
+Qed.
+
+(* ---- NoneLaws ---- *)
+Lemma b_none_pass : Core.none_u brt (Core.none brt) = Core.Ok (Core.none brt).
+Proof. cbn [Core.none_u Core.none bridged]. unfold b_none_u, b_none. rewrite cdec_enc. reflexivity. Qed.
+
+Lemma bridged_none_laws : Utf8Total rt0 -> (forall e, Core.suppressed base (exn_map e) = true) ->
+  CoreValid.NoneLaws brt.
+Proof.
+  intros Ht Hsup. split; [exact b_none_pass|].
+  intros v Hv. cbn [Core.none_u Core.none Core.suppressed bridged] in *. unfold b_none_u.
+  destruct v as [a| | | | |]; try (exists Core.EValue; split; [reflexivity|exact (Hsup EValue)]).
+  destruct (cdec a) as [x|] eqn:Ea; [|exists Core.EValue; split; [reflexivity|exact (Hsup EValue)]].
+  assert (Hx : x <> VNone).
+  { intros ->. apply cdec_inv in Ea. subst a. unfold b_none in Hv. cbn [Core.pv_eqb] in Hv.
+    rewrite Nat.eqb_refl in Hv. discriminate. }
+  destruct (unm_none_rejects rt0 x Hx Ht) as [e He]. rewrite He. exists (exn_map e). split; [reflexivity|apply Hsup].
+Qed.
+
+(* ---- RoundLaws (C01), exact equality, strict range ---- *)
+Lemma bridged_leaf_round : (forall s, RuntimeLaws (rts s)) -> (forall s, FoldLaws (rts s)) ->
+  forall s v w, lv true s v = true -> Core.leaf_m brt s v = Core.Ok w -> Core.leaf_u brt s w = Core.Ok v.
+Proof.
+  intros HL HF s v w Hv Hm. cbn [Core.leaf_m Core.leaf_u bridged] in *. unfold LeafBridge.lv in Hv.
+  unfold b_leaf_m in Hm. unfold b_leaf_u. destruct (kind_of s) as [k|]; [|discriminate].
+  destruct (on_atom_inv _ _ Hv) as (a & x & -> & Ea & Hin).
+  destruct (run_leaf_ok _ _ _ Hm) as (a' & x' & y & Hp & Ea' & Hf & ->). inv Hp. rewrite Ea in Ea'. inv Ea'.
+  rewrite run_leaf_enc. rewrite (round_exact (rts s) ev (HL s) k x' y (HF s) Hin Hf). cbn [lift].
+  rewrite (cdec_inv _ _ Ea). reflexivity.
+Qed.
+
+Lemma bridged_none_round v : Core.is_none_val brt v = true -> Core.none_u brt v = Core.Ok v.
+Proof.
+  unfold Core.is_none_val. cbn [Core.none bridged]. unfold b_none. intros H. apply atom_eqb_eq in H. subst v.
+  exact b_none_pass.
+Qed.
+
+Lemma bridged_round_laws : (forall s, RuntimeLaws (rts s)) -> (forall s, FoldLaws (rts s)) ->
+  CoreC01.RoundLaws brt (lv true).
+Proof. intros HL HF. split; [exact (bridged_leaf_round HL HF)|exact bridged_none_round]. Qed.
+
+(* ---- the round trip up to the fold, on the whole range, from RuntimeLaws alone ---- *)
+Lemma bridged_leaf_round_sim : (forall s, RuntimeLaws (rts s)) ->
+  forall s v w, lv false s v = true -> Core.leaf_m brt s v = Core.Ok w ->
+  exists v', Core.leaf_u brt s w = Core.Ok v' /\ sim_pv enc dec v v'.
+Proof.
+  intros HL s v w Hv Hm. cbn [Core.leaf_m Core.leaf_u bridged] in *. unfold LeafBridge.lv in Hv.
+  unfold b_leaf_m in Hm. unfold b_leaf_u. destruct (kind_of s) as [k|]; [|discriminate].
+  destruct (on_atom_inv _ _ Hv) as (a & x & -> & Ea & Hin).
+  destruct (run_leaf_ok _ _ _ Hm) as (a' & x' & y & Hp & Ea' & Hf & ->). inv Hp. rewrite Ea in Ea'. inv Ea'.
+  destruct (round_sim (rts s) ev (HL s) k x' y Hin Hf) as (x'' & Hu & Hsim).
+  exists (Core.PAtom (enc x'')). rewrite run_leaf_enc, Hu. split; [reflexivity|].
+  cbn [sim_pv]. exists x', x''. repeat split; [exact Ea|apply cdec_enc|exact Hsim].
+Qed.
+
+(* ---- PassLaws / IdemLaws (C13) ---- *)
+Lemma bridged_lv_pass strict : (forall s, LoadLaws (rts s)) ->
+  forall s v, lv strict s v = true -> Core.leaf_u brt s v = Core.Ok v.
+Proof.
+  intros HLd s v Hv. cbn [Core.leaf_u bridged]. unfold LeafBridge.lv in Hv. unfold b_leaf_u.
+  destruct (kind_of s) as [k|]; [|discriminate].
+  destruct (on_atom_inv _ _ Hv) as (a & x & -> & Ea & Hin).
+  unfold in_kind in Hin. apply andb_true_iff in Hin as [Hs _].
+  unfold run_leaf. rewrite Ea. rewrite (unm_pass (rts s) k x Hs (fun _ => HLd s)). cbn [lift].
+  rewrite (cdec_inv _ _ Ea). reflexivity.
+Qed.
+
+Lemma bridged_leaf_idem : (forall s, LoadLaws (rts s)) ->
+  forall s x y, Core.leaf_u brt s x = Core.Ok y -> Core.leaf_u brt s y = Core.Ok y.
+Proof.
+  intros HLd s x y H. cbn [Core.leaf_u bridged] in *. unfold b_leaf_u in *.
+  destruct (kind_of s) as [k|]; [|discriminate].
+  destruct (run_leaf_ok _ _ _ H) as (a & x0 & y0 & -> & Ea & Hf & ->).
+  rewrite run_leaf_enc. rewrite (unm_pass (rts s) k y0 (unm_shape (rts s) k x0 y0 Hf) (fun _ => HLd s)). reflexivity.
+Qed.
+
+Lemma bridged_pass_laws strict : Utf8Total rt0 -> (forall e, Core.suppressed base (exn_map e) = true) ->
+  (forall s, LoadLaws (rts s)) -> CoreValid.PassLaws brt (lv strict).
+Proof. intros Ht Hs HLd. split; [exact (bridged_none_laws Ht Hs)|exact (bridged_lv_pass strict HLd)]. Qed.
+Lemma bridged_idem_laws : Utf8Total rt0 -> (forall e, Core.suppressed base (exn_map e) = true) ->
+  (forall s, LoadLaws (rts s)) -> CoreValid.IdemLaws brt.
+Proof. intros Ht Hs HLd. split; [exact (bridged_none_laws Ht Hs)|exact (bridged_leaf_idem HLd)]. Qed.
+
+(* ---- LeafLaws (C03): no interpreter law at all ---- *)
+Lemma bridged_leaf_laws : CoreC03.LeafLaws brt (leaf_class_ok enc dec kind_of).
+Proof.
+  split.
+  - intros s x v H. cbn [Core.leaf_u bridged] in H. unfold b_leaf_u in H. unfold leaf_class_ok.
+    destruct (kind_of s) as [k|]; [|discriminate].
+    destruct (run_leaf_ok _ _ _ H) as (a & x0 & y0 & -> & Ea & Hf & ->).
+    unfold on_atom. rewrite cdec_enc. exact (unm_shape (rts s) k x0 y0 Hf).
+  - intros x v H. cbn [Core.none_u Core.none bridged] in *. unfold b_none_u in H. unfold b_none.
+    destruct x as [a| | | | |]; try discriminate. destruct (cdec a) as [x0|]; [|discriminate].
+    unfold lift in H. destruct (unm_none rt0 x0) as [y| |] eqn:E; try discriminate. inv H.
+    rewrite (unm_none_ok rt0 x0 y E). reflexivity.
+Qed.
+
+(* ---- MarshalLaws (C06): no interpreter law at all ---- *)
+Lemma bridged_marshal_laws strict :
+  CoreC06.MarshalLaws brt (prim_atom enc dec) (robust_leaf kind_of) (robust_leaf kind_of) (lv strict) no_literal no_member.
+Proof.
+  assert (R : forall s x w, robust_leaf kind_of s = true -> Core.leaf_m brt s x = Core.Ok w ->
+                            CoreC06.is_wire (prim_atom enc dec) w = true).
+  { intros s x w Hr H. cbn [Core.leaf_m bridged] in H. unfold b_leaf_m in H. unfold robust_leaf in Hr.
+    destruct (kind_of s) as [k|]; [|discriminate].
+    destruct (run_leaf_ok _ _ _ H) as (a & x0 & y0 & -> & Ea & Hf & ->).
+    cbn [CoreC06.is_wire]. unfold prim_atom. rewrite cdec_enc. exact (mar_prim (rts s) ev k x0 y0 Hr Hf). }
+  split.
+  - exists (enc VNone). split; [reflexivity|]. unfold prim_atom. rewrite cdec_enc. reflexivity.
+  - exact R.
+  - intros s x w Hr _ H. exact (R s x w Hr H).
+  - intros s x H. discriminate H.
+Qed.
+
+(* ---- marshalling a leaf is injective (C01_keys_of_leaf_law), when == between distinct atoms is never claimed ---- *)
+Lemma bridged_leaf_m_inj : (forall s, RuntimeLaws (rts s)) -> (forall s, FoldLaws (rts s)) ->
+  (forall a b, Core.atom_eq base a b = true -> a = b) -> CoreC01.leaf_m_inj brt (lv true).
+Proof.
+  intros HL HF Hae s v1 v2 w1 w2 H1 H2 M1 M2 Heq.
+  pose proof (bridged_leaf_round HL HF s v1 w1 H1 M1) as U1.
+  pose proof (bridged_leaf_round HL HF s v2 w2 H2 M2) as U2.
+  cbn [Core.leaf_m bridged] in M1, M2. unfold b_leaf_m in M1, M2. destruct (kind_of s) as [k|]; [|discriminate].
+  destruct (run_leaf_ok _ _ _ M1) as (a1 & x1 & y1 & -> & _ & _ & ->).
+  destruct (run_leaf_ok _ _ _ M2) as (a2 & x2 & y2 & -> & _ & _ & ->).
+  cbn [Core.pv_pyeq Core.atom_eq bridged] in Heq |- *.
+  assert (E : enc y1 = enc y2).
+  { apply orb_true_iff in Heq as [Heq|Heq]; [apply Nat.eqb_eq; exact Heq|exact (Hae _ _ Heq)]. }
+  rewrite E in U1. rewrite U1 in U2. inv U2. rewrite Nat.eqb_refl. reflexivity.
+Qed.
+
+End Bridged.
+
+(* ================================================================== C. the concrete coding satisfies the coding law *)
+Lemma pz_app z r : pz (tz z ++ r) = Some (z, r).
+Proof.
+  unfold tz, pz. cbn [app]. destruct (Z.ltb z 0) eqn:E; cbn [Nat.eqb]; f_equal; f_equal.
+  - apply Z.ltb_lt in E. rewrite Zabs2Nat.id_abs. lia.
+  - apply Z.ltb_ge in E. rewrite Zabs2Nat.id_abs. lia.
+Qed.
+Lemma pz_end z : pz (tz z) = Some (z, []).
+Proof. rewrite <- (app_nil_r (tz z)). apply pz_app. Qed.
+Lemma take_chars_app cs r : take_chars (List.length cs) (map nat_of_ascii cs ++ r) = Some (cs, r).
+Proof.
+  induction cs as [|c cs IH]; [reflexivity|]. cbn [List.length map app take_chars]. rewrite IH. cbn [obind].
+  rewrite ascii_nat_embedding. reflexivity.
+Qed.
+Lemma pstr_app s r : pstr (tstr s ++ r) = Some (s, r).
+Proof.
+  unfold tstr, pstr. cbn [app]. rewrite take_chars_app. cbn [obind]. rewrite string_of_list_ascii_of_string. reflexivity.
+Qed.
+Lemma ptag_tstr f s : ptag f (tstr s) = Some (f s).
+Proof. unfold ptag. rewrite <- (app_nil_r (tstr s)), pstr_app. reflexivity. Qed.
+Lemma poz_app o r : poz (toz o ++ r) = Some (o, r).
+Proof.
+  destruct o as [z|]; cbn [toz app poz]; [|reflexivity]. rewrite pz_app. reflexivity.
+Qed.
+Lemma pcar_tcar c : pcar (tcar c) = c.
+Proof. destruct c; reflexivity. Qed.
+
+Lemma val_of_tokens_of v : val_of_tokens (tokens_of v) = Some v.
+Proof.
+  destruct v; cbn [tokens_of val_of_tokens]; rewrite ?ptag_tstr, ?pcar_tcar; try reflexivity.
+  - rewrite pz_end. reflexivity.
+  - rewrite !pz_app. cbn [obind]. rewrite !pz_app. cbn [obind]. rewrite pz_end. reflexivity.
+  - destruct d as [y mo dd0 h mi s us o fo]. cbn [dy dmo dd dh dmi ds dus doff dfold].
+    repeat (rewrite ?pz_app, ?poz_app; cbn [obind]). rewrite pz_end. reflexivity.
+  - destruct t as [h mi s us o fo]. cbn [th tmi ts tus toff tfold].
+    repeat (rewrite ?pz_app, ?poz_app; cbn [obind]). rewrite pz_end. reflexivity.
+  - repeat (rewrite ?pz_app; cbn [obind]). rewrite pz_end. reflexivity.
+Qed.
+
+Lemma tokens_of_bits_app acc n r :
+  tokens_of_bits acc (repeat true n ++ false :: r) = (acc + n) :: tokens_of_bits 0 r.
+Proof.
+  revert acc. induction n as [|n IH]; intros acc; cbn [repeat app tokens_of_bits].
+  - rewrite Nat.add_0_r. reflexivity.
+  - rewrite IH. f_equal. lia.
+Qed.
+Lemma tokens_of_bits_of l : tokens_of_bits 0 (bits_of_tokens l) = l.
+Proof. induction l as [|n l IH]; [reflexivity|]. cbn [bits_of_tokens]. rewrite tokens_of_bits_app, IH. reflexivity. Qed.
+Lemma bits_of_pos_of l : bits_of_pos (pos_of_bits l) = l.
+Proof. induction l as [|[|] l IH]; cbn [pos_of_bits bits_of_pos]; rewrite ?IH; reflexivity. Qed.
+
+Lemma std_coding_law : coding_law std_enc std_dec.
+Proof.
+  intros v. unfold std_dec, std_enc. rewrite Pos2Nat.id, bits_of_pos_of, tokens_of_bits_of. apply val_of_tokens_of.
+Qed.
+
+(* ================================================================== D. the toy runtime satisfies the extra laws *)
+Lemma toy_load_laws : LoadLaws toy_rt.
+Proof. split. reflexivity. Qed.
+Lemma toy_utf8_total : Utf8Total toy_rt.
+Proof. intros b. discriminate. Qed.
+
+Ltac crush_opt H :=
+  repeat (unfold IsoText.obind in H;
+    match type of H with
+    | Some _ = Some _ => inv H
+    | None = Some _ => discriminate H
+    | context [match ?x with _ => _ end] => let E := fresh "E" in destruct x eqn:E
+    end).
+
+Lemma read_clock_fold0 s t : read_clock s = Some t -> tfold t = 0%Z.
+Proof. unfold read_clock. intros H. crush_opt H; reflexivity. Qed.
+
+Lemma toy_parse_fold0 s d : toy_parse s = Ok (PDT d) -> dfold d = 0%Z.
+Proof.
+  unfold toy_parse, toy_parse_chars. intros H.
+  destruct (read_date_prefix (list_ascii_of_string s)) as [[[[y m] dd0] rest]|].
+  - destruct rest as [|c r]; [inv H; reflexivity|].
+    destruct (Ascii.eqb c "T"); [|discriminate]. destruct (read_clock r) as [t|]; [|discriminate]. inv H. reflexivity.
+  - destruct (read_iso_duration_chars (list_ascii_of_string s)) as [[[a b] c]|]; [discriminate|].
+    destruct (list_ascii_of_string s) as [|a [|b [|c r]]]; try discriminate.
+    destruct (Ascii.eqb a "P" && Ascii.eqb b "T"); discriminate.
+Qed.
+
+Lemma toy_fold_laws : FoldLaws toy_rt.
+Proof.
+  split.
+  - intros d d' _ H. exact (toy_parse_fold0 _ _ H).
+  - intros t t' _ H. cbn [time_fromisoformat toy_rt] in H. unfold toy_time_fromiso in H.
+    destruct (read_iso_time (canon_text toy_rt (VTime t))) as [t0|] eqn:E; [|discriminate]. inv H.
+    exact (read_clock_fold0 _ _ E).
+Qed.
+
+(* the laws of RuntimeLaws do not mention the enum class at hand *)
+Lemma with_enum_laws rt f : RuntimeLaws rt -> RuntimeLaws (with_enum rt f).
+Proof.
+  intros L. split.
+  - exact (utf8_rt rt L). - exact (int_text_rt rt L). - exact (float_text_rt rt L). - exact (dec_text_rt rt L).
+  - exact (frac_text_rt rt L). - exact (uuid_text_rt rt L). - exact (path_text_rt rt L).
+  - exact (uuid_text_not_loadable rt L). - exact (parse_date_rt rt L). - exact (parse_dt_rt rt L).
+  - exact (time_iso_rt rt L). - exact (canon_unsigned rt L). - exact (parse_dur_rt rt L).
+Qed.
+
+(* ================================================================== E. witnesses and the example instance *)
+(* ---- scalar level, by computation on the toy runtime ---- *)
+Local Open Scope string_scope.
+Lemma fold_round_fails_scalar :
+  in_kind toy_rt ex_ev false LDateTime (VDateTime ex_dt_fold1) = true /\
+  in_kind toy_rt ex_ev true LDateTime (VDateTime ex_dt_fold1) = false /\
+  mar_of toy_rt ex_ev LDateTime (VDateTime ex_dt_fold1) = Ok (VText CStr "2020-01-01T17:00:00.999999+05:30") /\
+  unm_of toy_rt LDateTime (VText CStr "2020-01-01T17:00:00.999999+05:30") = Ok (VDateTime ex_dt) /\
+  same_dt ex_dt_fold1 ex_dt = true /\ ex_dt <> ex_dt_fold1.
+Proof. vm_compute. repeat split; discriminate. Qed.
+
+Lemma enum_bytes_round_fails :
+  RuntimeLaws (with_enum toy_rt bytes_enum_of_val) /\
+  shape LEnum (VEnum "E.c") = true /\
+  bytes_enum_value "E.c" = Ok (VText CBytes "yy") /\
+  enum_of_val (with_enum toy_rt bytes_enum_of_val) (VText CBytes "yy") = Ok "E.c"%string /\
+  enum_value_ok (with_enum toy_rt bytes_enum_of_val) bytes_enum_value "E.c" = false /\
+  mar_of (with_enum toy_rt bytes_enum_of_val) bytes_enum_value LEnum (VEnum "E.c") = Ok (VText CBytes "yy") /\
+  unm_of (with_enum toy_rt bytes_enum_of_val) LEnum (VText CBytes "yy") = Raise EValue.
+Proof. split; [exact (with_enum_laws toy_rt _ toy_laws)|]. vm_compute. repeat split. Qed.
+
+Lemma zero_duration_facts :
+  (forall rt, RuntimeLaws rt ->
+     mar_of rt ex_ev LTimeDelta (VTimeDelta 0 0 0) = Ok (VText CStr "PT") /\
+     unm_of rt LTimeDelta (VText CStr "PT") = Ok (VTimeDelta 0 0 0)) /\
+  iso8601_duration "PT" = false /\ read_iso_duration "PT" = None /\
+  unm_of (with_parse toy_rt (strict_parse toy_parse)) LTimeDelta (VText CStr "PT") = Raise EValue /\
+  unm_of (with_parse toy_rt (strict_parse toy_parse)) LTimeDelta (VText CStr "PT1S") = Ok (VTimeDelta 0 1 0).
+Proof.
+  split; [|vm_compute; repeat split].
+  intros rt L. split; [reflexivity|]. exact (text_timedelta rt L CStr (0, 0, 0)%Z eq_refl).
+Qed.
+
+(* ---- bridged level ---- *)
+Section Instance.
+Variable enc : val -> nat.
+Variable dec : nat -> option val.
+Hypothesis CL : coding_law enc dec.
+
+Lemma enc_inj x y : enc x = enc y -> x = y.
+Proof. intros H. pose proof (CL x) as Hx. rewrite H, (CL y) in Hx. inv Hx. reflexivity. Qed.
+
+Notation xrt := (bridged enc dec ex_kinds (fun _ => toy_rt) ex_ev toy_rt ex_base).
+Notation xlv := (lv enc dec ex_kinds (fun _ => toy_rt) ex_ev).
+Definition no_env : Core.env := fun _ => None.
+
+Lemma ex_lv_enc strict s x : xlv strict s (Core.PAtom (enc x)) =
+  match ex_kinds s with Some k => in_kind toy_rt ex_ev strict k x | None => false end.
+Proof. unfold lv, on_atom. rewrite (cdec_enc enc dec CL). reflexivity. Qed.
+
+Lemma ex_hyps :
+  CoreC01.valid xrt (xlv true) no_env 4 ex_T (ex_pv enc Core.KTuple ex_vals) = true /\
+  CoreC01.c01_guard xrt no_env 4 ex_T (ex_pv enc Core.KTuple ex_vals) = true /\
+  CoreC01.union_unamb xrt (xlv true) no_env 4 ex_T (ex_pv enc Core.KTuple ex_vals) = true.
+Proof.
+  split; [|split; reflexivity].
+  unfold ex_T, ex_pv, ex_vals.
+  cbn [CoreC01.valid CoreC01.forallb2 forallb Core.seqkind_eqb andb map].
+  rewrite !ex_lv_enc. vm_compute. reflexivity.
+Qed.
+
+Lemma ex_mar : Core.mar xrt no_env 4 ex_T (ex_pv enc Core.KTuple ex_vals) = Core.Ok (ex_pv enc Core.KList ex_wire).
+Proof.
+  unfold ex_T, ex_pv, ex_vals, ex_wire.
+  cbn [Core.mar Core.itervalues Core.bind Core.mapM Core.zip_trunc map fst snd Core.leaf_m bridged].
+  unfold b_leaf_m. cbn [ex_kinds]. rewrite !(run_leaf_enc enc dec CL). vm_compute. reflexivity.
+Qed.
+
+Lemma ex_unm : Core.unm xrt no_env 4 ex_T (ex_pv enc Core.KList ex_wire) = Core.Ok (ex_pv enc Core.KTuple ex_vals).
+Proof.
+  unfold ex_T, ex_pv, ex_vals, ex_wire.
+  cbn [Core.unm Core.load Core.is_scalar Core.itervalues Core.bind Core.mapM Core.zip_trunc map fst snd
+       Core.leaf_u bridged Core.construct_seq List.length Nat.ltb Nat.leb].
+  unfold b_leaf_u. cbn [ex_kinds]. rewrite !(run_leaf_enc enc dec CL). vm_compute. reflexivity.
+Qed.
+
+(* with the lax range (fold 1 allowed) exact equality fails: the wire form of a datetime does not carry the fold *)
+Lemma ex_fold_refutes :
+  xlv false 5 (Core.PAtom (enc (VDateTime ex_dt_fold1))) = true /\
+  Core.leaf_m xrt 5 (Core.PAtom (enc (VDateTime ex_dt_fold1)))
+    = Core.Ok (Core.PAtom (enc (VText CStr "2020-01-01T17:00:00.999999+05:30"))) /\
+  Core.leaf_u xrt 5 (Core.PAtom (enc (VText CStr "2020-01-01T17:00:00.999999+05:30")))
+    = Core.Ok (Core.PAtom (enc (VDateTime ex_dt))) /\
+  Core.PAtom (enc (VDateTime ex_dt)) <> Core.PAtom (enc (VDateTime ex_dt_fold1)).
+Proof.
+  split; [rewrite ex_lv_enc; vm_compute; reflexivity|].
+  split; [cbn [Core.leaf_m bridged]; unfold b_leaf_m; cbn [ex_kinds]; rewrite (run_leaf_enc enc dec CL); vm_compute; reflexivity|].
+  split; [cbn [Core.leaf_u bridged]; unfold b_leaf_u; cbn [ex_kinds]; rewrite (run_leaf_enc enc dec CL); vm_compute; reflexivity|].
+  intros H. inv H. match goal with X : enc _ = enc _ |- _ => apply enc_inj in X; discriminate X end.
+Qed.
+
+End Instance.
+
+Lemma ex_base_suppresses : forall e, Core.suppressed ex_base (exn_map e) = true.
+Proof. intros e. reflexivity. Qed.
